@@ -133,15 +133,25 @@ Proof.
     rewrite (default_typed_entry shash p _ (Hs t Ht)). cbn. rewrite (Hs t Ht). split; reflexivity.
 Qed.
 
-(* plain Tree without any mapper: every node a bare str entry (str data, no explicit id) *)
-Lemma default_plain_mapper_ok shash f : all_bare CPlain f ->
+Lemma default_plain_entry shash idx i : i_isstr i = true ->
+  default_deser_plain shash idx (entry_dict CPlain i) = Ok (DV true (i_name i) (shash (i_name i))).
+Proof.
+  intros Hs. unfold default_deser_plain, entry_dict. rewrite Hs. cbn [app dget is_typed]. rewrite text_eqb_refl.
+  destruct (custom_id i); reflexivity.
+Qed.
+
+(* plain Tree without any mapper, str data (also with explicit ids, D92 repaired) *)
+Lemma default_plain_mapper_ok shash f : all_str f ->
   mapper_ok CPlain default_ser (default_deser CPlain shash) f.
 Proof.
-  intros Hb. split; [split; [|split]|].
+  intros Hs. split; [split; [|split]|].
   - intros t Ht. cbn zeta. unfold default_ser. split; [apply entry_dict_keys|split; reflexivity].
-  - intros idx t Ht Hn. rewrite (Hb t Ht) in Hn. discriminate.
-  - intros idx t d' Ht Hp. reflexivity.
-  - intros p t Ht Hn. rewrite (Hb t Ht) in Hn. discriminate.
+  - intros idx t Ht _. unfold default_ser, default_deser. cbn [is_typed]. rewrite (default_plain_entry shash idx _ (Hs t Ht)). eauto.
+  - intros idx t d' Ht Hp. unfold default_ser in *. unfold default_deser. cbn [is_typed]. unfold default_deser_plain.
+    destruct (entry_dict_keys CPlain (rinfo t)) as [Hn _].
+    rewrite (dget_perm _ _ _ Hn (Permutation_sym Hp)). now rewrite (forallb_perm _ _ _ Hp).
+  - intros p t Ht _. cbn zeta. unfold default_ser, default_deser. cbn [is_typed].
+    rewrite (default_plain_entry shash p _ (Hs t Ht)). cbn. rewrite (Hs t Ht). split; reflexivity.
 Qed.
 
 Lemma default_entries_ok c ko vo f : (ko = KTrue \/ ko = KFalse) -> (vo = VTrue \/ vo = VFalse) ->
@@ -167,37 +177,43 @@ Definition str_hash_fn (shash : text -> Z) (f : forest) : Prop :=
   forall t, In t (pre_f f) -> i_isstr (rinfo t) = true -> i_hash (rinfo t) = shash (i_name (rinfo t)).
 
 Theorem roundtrip_default_mappers c shash ko vo meta f :
-  (c = CTyped /\ all_str f) \/ (c = CPlain /\ all_bare CPlain f) ->
+  (c = CTyped \/ c = CPlain) -> all_str f ->
   (ko = KTrue \/ ko = KFalse) -> (vo = VTrue \/ vo = VFalse) -> meta_ok meta ->
   tree_ok c f -> str_hash_fn shash f ->
   exists j f', save_doc c default_ser ko vo meta f = Ok j /\
                load_doc c (default_deser c shash) shash j = Ok (header_spec (resolve_km c ko) (resolve_vm c vo f) meta, f') /\
                iso f f' /\ map rdid (pre_f f') = map rdid (pre_f f) /\ ids f' = seq 1 (size_f f).
 Proof.
-  intros Hc Hko Hvo Hm Ht Hsh.
+  intros Hc Hs Hko Hvo Hm Ht Hsh.
   assert (Hmap : mapper_ok c default_ser (default_deser c shash) f).
-  { destruct Hc as [[-> Hs]|[-> Hb]]; [now apply default_typed_mapper_ok|now apply default_plain_mapper_ok]. }
+  { destruct Hc as [-> | ->]; [now apply default_typed_mapper_ok|now apply default_plain_mapper_ok]. }
   assert (Hopts : opts_ok c default_ser ko vo meta f).
   { split; [|split; [now apply default_entries_ok|exact Hm]].
     destruct Hko as [-> | ->]; cbn [resolve_km]; [apply default_km_ok|split; constructor]. }
   assert (Hst : id_stable c default_ser (default_deser c shash) shash f).
   { split.
-    - intros t Hin Hb. symmetry. apply Hsh; [exact Hin|]. unfold bare_str in Hb.
-      apply andb_true_iff in Hb as [Hb _]. now apply andb_true_iff in Hb as [_ Hb].
-    - intros p t Hin Hb _. destruct Hc as [[-> Hs]|[-> Hb']]; [|rewrite (Hb' t Hin) in Hb; discriminate].
-      unfold default_ser, default_deser. cbn [is_typed]. rewrite (default_typed_entry shash p _ (Hs t Hin)). cbn [dv_or dv_hash].
-      symmetry. now apply Hsh; [|apply Hs]. }
+    - intros t Hin Hb. symmetry. apply Hsh; [exact Hin|]. now apply Hs.
+    - intros p t Hin Hb _. unfold default_ser, default_deser.
+      destruct Hc as [-> | ->]; cbn [is_typed];
+        [rewrite (default_typed_entry shash p _ (Hs t Hin))|rewrite (default_plain_entry shash p _ (Hs t Hin))];
+        cbn [dv_or dv_hash]; symmetry; (apply Hsh; [exact Hin|now apply Hs]). }
   exact (roundtrip c default_ser (default_deser c shash) shash f ko vo meta Ht Hopts Hmap Hst).
 Qed.
 
-(* D92: plain Tree, str node with an explicit data_id, no mapper: the entry {"str", "data_id"} is written natively
-   but the default deserialize mapper of Tree refuses it (TypedTree's accepts it) *)
-Definition f_d91 : forest := [ T 1 (set_did_i (DStr (t_ "k")) (si (t_ "a") None)) [] ].
-Lemma d91_witness :
-  exists j, save_doc CPlain default_ser KTrue VTrue [] f_d91 = Ok j /\
-            load_doc CPlain (default_deser CPlain whash) whash j = Err ENotImpl /\
-            (exists md f', load_doc CTyped (default_deser CTyped whash) whash j = Ok (md, f')).
-Proof. eexists. split; [vm_compute; reflexivity|]. split; [vm_compute; reflexivity|]. do 2 eexists. vm_compute. reflexivity. Qed.
+(* D92 (FIXED): plain Tree, str node with an explicit data_id, no mapper: the entry {"str", "data_id"} is written
+   natively and -- since the repair of Tree.deserialize_mapper -- read natively, as by a TypedTree.  Regression example;
+   the pre-repair mapper (always NotImplementedError) is kept to show what failed. *)
+Definition f_d92 : forest := [ T 1 (set_did_i (DStr (t_ "k")) (si (t_ "a") None)) [] ].
+Definition default_deser_plain_prerepair : nat -> dict -> res dval := fun _ _ => Err ENotImpl.
+Lemma d92_witness :
+  exists j, save_doc CPlain default_ser KTrue VTrue [] f_d92 = Ok j /\
+            (exists md f', load_doc CPlain (default_deser CPlain whash) whash j = Ok (md, f') /\ iso f_d92 f') /\
+            (exists md f', load_doc CTyped (default_deser CTyped whash) whash j = Ok (md, f')) /\
+            load_doc CPlain default_deser_plain_prerepair whash j = Err ENotImpl.
+Proof.
+  eexists. split; [vm_compute; reflexivity|]. split; [do 2 eexists; split; [vm_compute; reflexivity|vm_compute; reflexivity]|].
+  split; [do 2 eexists; vm_compute; reflexivity|vm_compute; reflexivity].
+Qed.
 
 (* ---------------------------------------------------------------- the region excluded by clones_consistent *)
 (* By the library's clone semantics one data_id stands for one data object; an explicit data_id is the caller's
